@@ -44,3 +44,5 @@ def run(ctx: Ctx) -> None:
     ctx.do(RO.rule_roles)
     ctx.do(CO.rule_coh_src)
     ctx.do(AS.rule_role_grp)
+    from kfv.rules import dist_rules as _DR
+    ctx.do(_DR.rule_contig)
